@@ -55,3 +55,15 @@ Definition judge_cfg_to_nfa (eps geps : nat) (G : cfg) (o : option (nfa nat)) : 
   | Some N, Some M => match nfa_equivb_f 400 N M with Some true => 0 | Some false => 1 | None => 0 end
   | _, _ => 1
   end.
+
+(* ---- names of subset states (Model/Naming.v: print_state_set = '{' + ','.join(sorted(Q)) + '}'): the state names of the
+   implementation's DFA are exactly the names the model computes for the subsets of the model's subset automaton.
+   names = the harness's table code -> token of the NFA state names. ---- *)
+From GT Require Import Model.DFA Model.Naming.
+Definition name_of (names : list (nat * token)) (q : nat) : token := match lookup q names with Some t => t | None => [] end.
+Definition judge_subset_names (names : list (nat * token)) (N : nfa nat) (implQ : list token) (implq0 : token) : nat :=
+  match nfa_det N with
+  | Some D => worst_code [ check (seteqb (map (fun S0 => state_set_name (map (name_of names) S0)) (dQ D)) implQ) 1;
+                           check (eqb (state_set_name (map (name_of names) (dq0 D))) implq0) 1 ]
+  | None => 0
+  end.
